@@ -136,6 +136,7 @@ func (c *Client) channelOK() bool {
 
 func (c *Client) getOrBuildChannel(ctx context.Context) (*ClientChannel, error) {
 	if c.channelOK() {
+		verifPoint("client.getorbuild.ok")
 		c.mu.RLock()
 		defer c.mu.RUnlock()
 		return c.channel, nil
@@ -196,6 +197,7 @@ func (c *Client) startListener() {
 		defer close(c.done)
 
 		for ctx.Err() == nil {
+			verifPoint("client.listen.iter")
 			channel, err := c.getOrBuildChannel(ctx)
 			if err != nil {
 				log.Printf("client: listen: %v", err)
